@@ -55,8 +55,11 @@ def handle : Handler := fun op inp impl =>
     let agree := implErr == mErr && implCases == mCases
     -- the property: rejected iff contradictory or empty, otherwise exactly the specified set
     let f := defaults cfg.features
-    let rejected := decide (Rejected cfg)
-    let spec := if rejected then [] else (specSet f cfg.includes cfg.excludes).map Case.code
+    -- `Rejected cfg` (Spec), evaluated so that `specSet` is enumerated only once
+    let contra := decide (Contradictory cfg.features f) ||
+      (cfg.includes ++ cfg.excludes).any (fun e => decide (EntryContradictory f e))
+    let spec := if contra then [] else (specSet f cfg.includes cfg.excludes).map Case.code
+    let rejected := contra || spec.isEmpty
     let holds := if rejected then implErr != "" else implErr == "" && implCases == spec
     let why := if holds then "" else
       if rejected then "accepted: the configuration is contradictory or specifies no case, but a set was returned"
